@@ -6,6 +6,22 @@ ids = [json.loads(l)["id"] for l in open(os.path.join(HERE, "properties.jsonl"))
 
 # pid -> (category, text, level_note, technique, design_ref)
 CLAIMS = {
+ "C09": ("other",
+         "In read_mem and write_mem the AccessViolation return (condition normalised to !ctx.privileged && addr outside [x3000,xFE00), range read from the promoted constant) precedes every call and every store of the function (CFG reachability: nothing effectful can reach the error return); only an enumerated owner set indexes the memory array or calls device io_read/io_write/InternalRegister; every read_mem/write_mem call reachable from step passes default_mem_ctx() or a struct update of it changing only `strict`; default_mem_ctx().privileged is psr.privileged() || ignore_privilege; handle_interrupt takes its context after set_privileged(true); every RTI effect is guarded by exactly the two-way privilege test; writers of Simulator.psr are enumerated and the field is private.",
+         "Host code with &mut Simulator can use public fields; the claim is about simulated user-mode code. 'Leaves state unchanged' is claimed as guard-first. Trusted: rustc MIR, mirfacts, rules/lib.",
+         "CFG reachability (guard-first), who-may-call ownership, def-use provenance of access contexts", "5 C09"),
+ "C10": ("other",
+         "Gating, entry and exit of interrupts: one poll at the top of _step_inner dominating the fetch and no other poller; the device-interrupt handle_interrupt(x100+vect, Some(p)) is reached only on the edge p > psr.priority() with an inner p <= priority early return; arbitration is filter_map + max_by_key on priority().unwrap_or(8) with priorities clamped to 0..=7; entry sequence (old PSR/PC before the privilege change, stack swap guarded by exactly `!privileged()` before SP is read, PSR at SP-1 and PC at SP-2, SP -= 2, CC:=Z, priority only for Some(p), frame type, new PC = mem[vect] via read_mem); RTI pops PC from SP and PSR from SP+1 and swaps back iff the restored PSR is user. The transparency consequence (equal final state under every schedule) is not decided.",
+         "Handler behaviour is the simulated program's; only the entry/exit pairing is decided. Trusted: rustc MIR, mirfacts, rules/lib.",
+         "dominance / local-guard analysis and provenance on MIR; sibling agreement of push and pop offsets", "5 C10"),
+ "C14": ("other",
+         "Strict-taint: every branch controlled by flags.strict/ctx.strict has a strict-only region that calls only an enumerated pure set, stores only to locals and builds only SimErr::Strict* errors; Word::get_if_init/set_if_init return Err exactly on strict && !is_init (phi-aware) and otherwise act identically; every one of their call sites in the simulator passes a Strict* error constant; clear_init/new_uninit are unreachable from step and Word::set initialises.",
+         "Relies on C15 for 'initialised operands give initialised results'. Trusted: rustc MIR, mirfacts, rules/lib.",
+         "control-dependence (taint) regions on the CFG + effect purity table + call-site argument provenance", "5 C14"),
+ "C15": ("proof",
+         "Word::bitand and Word::not: the extracted data/init formulas are evaluated as truth tables over one bit of (ldata, linit, rdata, rinit) - the reported init bit never depends on an uninitialised data bit and implies a determined data bit; initialised inputs give initialised ldata&rdata / !data. Word::add/sub: data is wrapping_add/sub, the mask is ALL_BITS iff both masks are ALL_BITS (phi-aware) else NO_BITS, and the early returns hand back an operand only when the other operand is the initialised constant 0 (sub: right operand only). Assign impls delegate; writers/builders of Word.init enumerated.",
+         "Trusted base: rustc MIR, mirfacts, the truth-table evaluator in rules/C15.py. Add/Sub soundness is the coarse argument 'initialised only when both operands are'.",
+         "bit-parallel truth tables of extracted formulas; dominator/phi analysis", "5 C15"),
  "C08": ("other",
          "For each of the 15 arms of the instruction match in _step_inner the effect signature extracted from MIR - read_mem/write_mem calls with the symbolic provenance of their addresses (pc+off, reg[BaseR]+off, mem[pc+off]), register writes and their source, set_cc on exactly the value written (and absent for LEA/ST*/BR/JMP/JSR/TRAP), PC-changing calls, ALU operator, BR condition, RTI loading PC/PSR verbatim from SP/SP+1 and SP+=2 - equals a hand-written ISA table. Fetch order (prefetch flag, poll, fetch, decode, PC+1, execute) and the single instruction counter by dominance; the exception/HALT vector rows under real traps and the virtual short-circuit with PC rewind; set_cc mapping; every PSR accessor/mutator executed path by path in the bit-provenance domain on a symbolic PSR. Data values and device content are not decided.",
          "Trusted: rustc MIR, mirfacts, rules/lib (simx classification, bits domain), the hand-written effect table. Interrupt entry/RTI pairing is C10, privilege C09, Word arithmetic C15.",
